@@ -705,24 +705,38 @@ def _f2py_inout(arr):
     return arr
 
 
+def _first(n, *arrs):
+    """BLAS level-1 routines touch the first ``n`` entries only (unit strides, no offsets: the only form ODL uses).
+    Returns the arrays restricted to those entries (views), or the arrays themselves when n covers them."""
+    if n is None or is_symscalar(n):
+        return arrs
+    n = int(n)
+    if all(getattr(a, 'ndim', 1) == 1 and not getattr(a, '_is_larr', False) and a.shape[0] > n for a in arrs):
+        return tuple(a[:n] for a in arrs)
+    return arrs
+
+
 def _blas_axpy(x, y, n=None, a=1.0, offx=0, incx=1, offy=0, incy=1):
     _used('blas.axpy')
     y = _f2py_inout(y)
-    y += a * x
+    xs, ys = _first(n, x, y)
+    ys += a * xs
     return y
 
 
 def _blas_scal(a, x, n=None, offx=0, incx=1):
     _used('blas.scal')
     x = _f2py_inout(x)
-    x *= a
+    xs, = _first(n, x)
+    xs *= a
     return x
 
 
 def _blas_copy(x, y, n=None, offx=0, incx=1, offy=0, incy=1):
     _used('blas.copy')
     y = _f2py_inout(y)
-    y[...] = x
+    xs, ys = _first(n, x, y)
+    ys[...] = xs
     return y
 
 
